@@ -550,7 +550,10 @@ class C04(Property):
             for i in range(nreq):
                 g = rng.randrange(len(c["groups"]))
                 q = {"group": g, "route": rng.randrange(c["groups"][g]["n"]), "hdrs": self._req_hdrs(rng),
-                     "parent_ns": rng.choice([None, None, HOUR // 3 + 7, 3 * HOUR]), "fl": rng.random() < 0.6,
+                     "parent_ns": rng.choice([None, None, HOUR // 3 + 7, 3 * HOUR]),
+                     # behind a response.WithCodeResponseWriter (which always has a Flush method) the timeout
+                     # writer flushes through whatever the bottom writer is; real servers are Flushers anyway
+                     "fl": True,
                      "h0": self._h0(rng), "deadline": False}
                 dur, _sse = self._srv_dur(c, q)
                 wrapped = dur > 0 and not self._srv_exempt(q)
@@ -938,8 +941,9 @@ class C04(Property):
                 items.append([900 + idx, [950 + idx]])
         return items, extra
 
-    def _wfields(self, w):
-        """status snap live body infos flushes extra late foreign of a WOut"""
+    def _wfields(self, w, outer=None):
+        """status snap live body infos flushes code extra late foreign of a WOut; [outer] = the Code of a real
+        response.WithCodeResponseWriter in front (server cases), which then is THE outer record"""
         snap, e1 = self._hx(w["snap"], w.get("snap_x"))
         live, e2 = self._hx(w["live"], w.get("live_x"))
         extra = e1 + e2
@@ -949,7 +953,8 @@ class C04(Property):
             extra += e
             infos.append("(%s, %s)" % (cz(inf["code"]), self._hdrs(hs)))
         return [cz(w["status"]), self._hdrs(snap), self._hdrs(live), clist([cz(b) for b in w["body"]]),
-                clist(infos), cz(w["flushes"]), cz(extra), cz(w["late"]), cz(w["foreign"])]
+                clist(infos), cz(w["flushes"]), cz(w["code"] if outer in (None, -1) else outer),
+                cz(extra), cz(w["late"]), cz(w["foreign"])]
 
     @staticmethod
     def _bstr(s):
@@ -1026,7 +1031,7 @@ class C04(Property):
                     rin["script"], [x[1:] for x in o["hobs"] if x[0] == i][o.get("_skip", {}).get(i, 0):])]),
                 copt(dmode), hdrs, cbool(self._srv_amb(rin)), self._optz(self._par(rin)),
                 "%d%%nat" % rin.get("group", 0), sout]
-                + self._wfields(ro["w"]) +
+                + self._wfields(ro["w"], ro.get("outer_code")) +
                 [cbool(ro["wrapped"]), self._optz(ro["dl_seen_ns"] if ro["has_dl"] else None),
                  cz(ro["t0_ns"]), cz(ro["t1_ns"])]))
         sched = clist(["(%d%%nat, %s)" % (i, self._ev(e)) for i, e in o["sched"]])
